@@ -41,8 +41,12 @@ def _apply_bounds(
         variables = mirror(variables, mask2, variables > upper_bounds, upper_bounds)
         variables = mirror(variables, mask2, variables < lower_bounds, lower_bounds)
 
-    # Finally, fall back to clipping.
-    return np.clip(variables, lower_bounds, upper_bounds)
+    # Finally, fall back to clipping, except where no truncation is requested.
+    return np.where(
+        truncation_types == BoundaryType.NONE,
+        variables,
+        np.clip(variables, lower_bounds, upper_bounds),
+    )
 
 
 def _invert_linear_equations(
